@@ -918,12 +918,13 @@ fn main() {
         let mut n_kinds = 0;
         if let Some(kinds) = &kinds {
             n_kinds = kinds.len();
-            idxs.extend(vgad::kind_representatives(kinds, 2));
+            idxs.extend(vgad::kind_representatives(kinds, if thorough { 2 } else { 1 }));
             idxs.sort();
             idxs.dedup();
         }
         stride_notes.push(format!(
-            "{key}: N = {n} tamperable advice assignments ({unt} untamperable, k = {k}); indices i = {r} (mod {stride}) ({n_stride} indices) + first/last of {n_kinds} cell kinds -> {} indices x {} fault values",
+            "{key}: N = {n} tamperable advice assignments ({unt} untamperable, k = {k}); indices i = {r} (mod {stride}) ({n_stride} indices) + first{} of {n_kinds} cell kinds -> {} indices x {} fault values",
+            if thorough { "/last" } else { "" },
             idxs.len(),
             if all { 8 } else { 4 }
         ));
